@@ -15,6 +15,8 @@ for d in sorted(Path("/verif/seeded").iterdir()):
         det = "C14 thorough only (see meta.json)"
     miss = ", ".join(f"{c['check']} {c['tier']}" for c in m["checks_run"] if c["exit"] == 0)
     flag = "yes (check strengthened)" if m.get("missed_before_strengthening") else "no"
+    if m.get("not_detected_by_design"):
+        flag = "yes (and still: out of the properties' / the family's reach)"
     rows.append(f"| `{m['id']}` | {what} | {det} | {flag} |")
 print("| id | change (from its notes.md) | detected by | missed at first? |")
 print("|---|---|---|---|")
